@@ -47,6 +47,23 @@ func main() {
 		return
 	}
 
+	// samples: the first case of up to 8 families, rendered by the parent (deterministic)
+	off := 0
+	for _, f := range sp.fams {
+		if f.name == "otlp-odd" || f.name == "zipkin-odd" || f.name == "otlp-attr1" || f.name == "otlp-multi3-[2 2]" ||
+			f.name == "zipkin-multi3" || f.name == "zipkin-order" || f.name == "otlp-svckeys" || f.name == "zipkin-tags" {
+			b := sp.at(off + f.size/2)
+			var body string
+			if b.Proto == "otlp" {
+				raw, _ := renderOTLP(b)
+				body = "protobuf:" + bodyText(b, raw)
+			} else {
+				body = string(renderZipkin(b))
+			}
+			r.Sample(map[string]any{"family": f.name, "index": off + f.size/2, "model": b, "body": body})
+		}
+		off += f.size
+	}
 	counters := map[string]int64{}
 	famCount := map[string]int{}
 	for _, f := range sp.fams {
@@ -66,9 +83,6 @@ func main() {
 			}
 			for k, v := range s.Counters {
 				counters[k] += v
-			}
-			for _, x := range s.Samples {
-				r.Sample(x)
 			}
 		},
 		Violation: func(v *wkpool.Viol) {
@@ -171,6 +185,9 @@ func replay(r *ev.Run) {
 	for _, o := range res.Outcomes {
 		r.Outcome(o)
 		fmt.Println("outcome:", o)
+	}
+	for k, v := range res.Counters {
+		fmt.Printf("observation: %s=%d\n", k, v)
 	}
 	r.Sample(res.Sample)
 	for _, v := range res.Viols {
